@@ -83,11 +83,14 @@ Definition item : Type := nat * str * str * str.
 Inductive node :=
 | NPath (id : nat) (given : str)            (* a value of a path type with mode "fr" *)
 | NLoad (given : str) (body : list node)    (* a nested config file named by a (relative) path *)
-| NListFile (given : str) (body : list node)(* List[path] given as a file listing one path per line *)
+| NListFile (yaml_ok : bool) (given : str) (body : list node)
+                                            (* List[path] given as a file listing one path per line; yaml_ok: the
+                                               content of the file happens to be loadable as YAML (a folded string) *)
 | NInline (body : list node)                (* nested settings written inline: no file, no directory *)
 | NBad.                                     (* a value that fails validation for an unrelated reason *)
 
 Section Run.
+  Variable fxs : fixes.        (* which repairs have landed (only fx_lf matters here); no_fixes = the pinned tree *)
   Variable files : list str.   (* normalised absolute paths of the readable regular files *)
 
   (* Path(given, mode="fr") in the current state: cwd = os.getcwd() *)
@@ -173,23 +176,36 @@ Section Run.
             (* `with change_to_path_dir(cfg_path): parser._apply_actions(cfg, ...)` *)
             bracket (Some a) (seq_nodes run_node body) s1
         end
-    | NListFile given body =>
+    | NListFile yaml_ok given body =>
         (* _check_type with enable_path: parse_value_or_config takes the list file for a config file
            (Path(value, "fr") against the cwd) and loads it as YAML, which gives one folded string; *)
         match open_fr s given with
         | Err => (s, Err)        (* no such file: the string is not a list -> ValueError, twice *)
         | Ok (_, a) =>
-            let '(s1, _) := bracket (Some a) (fun s' => (s', Ok tt)) s in
-            (* `with change_to_path_dir(config_path): adapt_typehints(val, ...)`: a string, not a list *)
-            let '(s2, _) := bracket (Some a) (fun s' => (s', @Err unit)) s1 in
-            (* except ValueError: `with change_to_path_dir(config_path): adapt_typehints(orig_val, ...)`:
-               the ORIGINAL spelling is looked up again — now from inside the list file's directory —
-               and every line is adapted inside `with change_to_path_dir(list_path)` *)
-            bracket (Some a) (fun s' =>
-              match open_fr s' given with
-              | Err => (s', Err)
-              | Ok (_, a2) => each_in_bracket run_node a2 body s'
-              end) s2
+            if yaml_ok then
+              let '(s1, _) := bracket (Some a) (fun s' => (s', Ok tt)) s in
+              (* `with change_to_path_dir(config_path): adapt_typehints(val, ...)`: a string, not a list *)
+              let '(s2, _) := bracket (Some a) (fun s' => (s', @Err unit)) s1 in
+              (* except ValueError: `with change_to_path_dir(config_path): adapt_typehints(orig_val, ...)`:
+                 the ORIGINAL spelling is looked up again — now from inside the list file's directory —
+                 and every line is adapted inside `with change_to_path_dir(list_path)`.
+                 Repaired (fx_lf): the fallback runs without `with change_to_path_dir(config_path)`. *)
+              let fallback := fun s' =>
+                match open_fr s' given with
+                | Err => (s', Err)
+                | Ok (_, a2) => each_in_bracket run_node a2 body s'
+                end in
+              if fx_lf fxs then fallback s2 else bracket (Some a) fallback s2
+            else
+              (* the loader raises inside `with cfg_path.relative_path_context()`: config_path = None and the
+                 value stays the spelling; `with change_to_path_dir(None): adapt_typehints(val, ...)` then
+                 reads the list file (Path(val, "fr") against the cwd) and adapts every line in its directory *)
+              let '(s1, _) := bracket (Some a) (fun s' => (s', @Err unit)) s in
+              bracket None (fun s' =>
+                match open_fr s' given with
+                | Err => (s', Err)
+                | Ok (_, a2) => each_in_bracket run_node a2 body s'
+                end) s1
         end
     | NInline body => bracket None (seq_nodes run_node body) s
     | NBad => (s, Err)
